@@ -177,7 +177,7 @@ PROPS = {
         "level": "proof",
         "timing": True,
         # read from the server's own state after all recording goroutines have joined: not a timing-dependent observation
-        "timing_exempt": ["C11.lost-event", "C11.lost-frame", "C11.blocked"],
+        "timing_exempt": ["C11.lost-event", "C11.lost-frame", "C11.blocked", "C11.duplicate-frame"],
         "claim": "Lean 4 theorems over a model of event distribution (handleRequest after login, EventAppend, EventBroadcast, SendEvent, SendAllPackagesToNewClient, RemoveClient, ListenerRemove pruning, Died): a newcomer receives the success answer, then the whole retained log in recording order (its own connect event last), then the live sessions (login_replay); a recorded event reaches every authenticated, healthy operator except the excluded one exactly once and nobody else, and is retained at the end of the log unless one-shot (broadcast_exact, record_exact, oneshot_not_retained); every operation keeps the retained log in order (retained_order); for every history, no add event of a removed listener stays in the replay list (ListenerInv, run_listenerInv, removed_listener_not_replayed); for every history and every point at which an operator's transport is cut, every other connection receives exactly the same frames in the same order, and the log is the same, as if it had stayed healthy (dead_operator_blocks_nobody, dead_operator_same_log, by a simulation relation). Regenerated facts: every mutex-taking function of cmd/server and pkg/service releases it on every path (server_locks_balanced); SendEvent sets a write deadline between Lock and the write (sendEvent_deadline_before_write); the replay loop's shape (replay_shape). Correspondence: a REAL teamserver with real websocket operators: logins at every point of histories of recorded / one-shot / excluded broadcasts, operator chat, SMB listener add / remove through the operator protocol, agent registrations and deaths, connections closed or cut, and (thorough tier + a corpus case) an operator that stops reading while 20 MiB of events are broadcast; frames of every connection in order, the retained log and completion of every call within a bound observed after every operation.",
         "note": "Trusted: Lean kernel (propext/Classical.choice/Quot.sound), fact extractors, harness + driver (event codes are read from packager.Type at run time). Interleavings of concurrent broadcasters are represented by atomic model steps; the real concurrency of EventsList appends is exercised only by the `burst` operation (several goroutines recording at once) and not enumerated. Stall detection needs the 15 s write deadline to expire, so it is a single corpus case in the quick tier.",
         "technique": "Lean 4 proof (replay / fan-out exactness, log invariants, fault-independence by simulation, regenerated lock + call-order facts) + correspondence against a real teamserver over websockets",
